@@ -37,36 +37,61 @@ def _const_variant(tr, b, op, loc):
 
 
 def _accessor_field(facts, tr, name):
-    """(adt, field) the public accessor `name()` of the context returns"""
-    for b in facts.crates[CRATE].bodies:
-        if b.name == name and b.kind == "fn" and b.j.get("vis") == "pub" and b.arg_count == 1:
-            for (i, j, node) in ret_assigns(tr, b):
-                for x in tr.walk(node, limit=40):
+    """(adt, field, context ADT) the public accessor `name()` of the context returns; judged on the accessor's fully
+    inlined body, so it does not matter through which private helper (`self.peek(|s| s.status)`) the state is read"""
+    from ..inline import view_of
+    ff, ftr = view_of(facts, "full")
+    for b0 in facts.crates[CRATE].bodies:
+        if b0.name == name and b0.kind == "fn" and b0.j.get("vis") == "pub" and b0.arg_count == 1:
+            b = ff.bodies.get(b0.def_) or b0
+            for (i, j, node) in ret_assigns(ftr, b):
+                for x in ftr.walk(ftr.expand(node, upvars=True), limit=60):
                     if x[0] == "field" and isinstance(x[2], str) and not x[2].isdigit() and x[3] and facts.adt(x[3]) is not None:
-                        return (x[3], x[2])
+                        ctx = b0.types[b0.impl["self_ty"]].get("def") if b0.impl else None
+                        return (x[3], x[2], ctx)
     return None
+
+
+def _writes_in(body, adt, field):
+    out = []
+    for i, blk in enumerate(body.blocks):
+        for j, s in enumerate(blk["stmts"]):
+            if s["k"] == "assign" and s["lhs"]["p"]:
+                last = s["lhs"]["p"][-1]
+                if isinstance(last, dict) and last.get("adt") == adt and last.get("n") == field:
+                    out.append((i, j, s))
+    return out
 
 
 def _roles(facts, tr):
     """the context's private mutators, named by their effect on the fields the public accessors expose:
     set_status writes the field status() returns; record_failure / record_success increment the field
-    consecutive_failures() / consecutive_successes() returns"""
+    consecutive_failures() / consecutive_successes() returns.  The effect is looked for in each method's fully inlined
+    body (the write may sit in a closure handed to a lock helper, or in a method of the state struct)."""
+    from ..inline import view_of
+    ff, ftr = view_of(facts, "full")
     roles = {}
+
+    def methods(ctx):
+        for b0 in facts.crates[CRATE].bodies:
+            if b0.kind == "fn" and b0.impl and not b0.impl.get("trait") and b0.types[b0.impl["self_ty"]].get("def") == ctx and b0.j.get("vis") != "pub":
+                yield b0, (ff.bodies.get(b0.def_) or b0)
     st = _accessor_field(facts, tr, "status")
     if st:
-        for (b, i, j, s) in field_writes(facts, st[0], st[1]):
-            if b.crate.name == CRATE and b.kind == "fn" and b.arg_count == 2:
-                roles[b.def_] = "set_status"
+        for (b0, b) in methods(st[2]):
+            if b0.arg_count == 2 and _writes_in(b, st[0], st[1]):
+                roles[b0.def_] = "set_status"
     for acc, role in (("consecutive_failures", "record_failure"), ("consecutive_successes", "record_success")):
         fl = _accessor_field(facts, tr, acc)
         if not fl:
             continue
-        for (b, i, j, s) in field_writes(facts, fl[0], fl[1]):
-            v = peel(tr.stmt_value(b, i, j))
-            if v[0] == "field" and peel(v[1])[0] == "binop":
-                v = peel(v[1])
-            if v[0] == "binop" and v[1].startswith("Add") and b.crate.name == CRATE and b.kind == "fn":
-                roles.setdefault(b.def_, role)
+        for (b0, b) in methods(fl[2]):
+            for (i, j, s) in _writes_in(b, fl[0], fl[1]):
+                v = peel(ftr.stmt_value(b, i, j))
+                if v[0] == "field" and peel(v[1])[0] == "binop":
+                    v = peel(v[1])
+                if v[0] == "binop" and v[1].startswith("Add"):
+                    roles.setdefault(b0.def_, role)
     return roles
 
 
@@ -234,7 +259,11 @@ def run(facts, tr, rep):
         if not rb:
             rep.anchor_missing("HealthCheckedContext::" + nm)
             continue
-        rb = rb[0]
+        # judged on the recorder's fully inlined body: the updates may sit in a closure handed to a lock helper or in a
+        # method of the state struct
+        ffc_, ftrc_ = view_of(facts, "full")
+        rb = ffc_.bodies.get(rb[0].def_) or rb[0]
+        tr_c_keep, tr = tr, ftrc_
         rep.saw(rb)
         ws = {}
         for i, blk in enumerate(rb.blocks):
@@ -250,6 +279,7 @@ def run(facts, tr, rep):
         vz = ws.get(zero)
         ok_zero = vz is not None and vz[0] == "const" and vz[3] == "0"
         locks = [c for c in graph(rb).calls() if c.name in ("write", "lock")]
+        tr = tr_c_keep
         rep.ob("C18.COUNTERS", skey(rb, "effect"), ok_inc and ok_zero and len(locks) == 1, "%s:%d" % (rb.span["file"], rb.span["line"]),
                "%s increments %s and zeroes %s under one write lock" % (nm, inc, zero) if ok_inc and ok_zero and len(locks) == 1 else
                "%s does not (increment %s, zero %s) under one lock" % (nm, inc, zero))
